@@ -325,8 +325,13 @@ def run(ctx):
                           dict(kind="run", params=params, file=g["file"]))
             continue
         init_ev, evs = mtlib.fold(res["events"])
-        if any(e["e"] in ("OVERFLOW", "TOOMANYCALLS") for e in evs):
-            raise MachineryError("driver event buffer overflow / too many calls: " + label)
+        if any(e["e"] == "TOOMANYCALLS" for e in evs):
+            # 200000 lzma_code() calls without an end: the coder keeps returning LZMA_OK without getting anywhere
+            ctx.violation("livelock:%s:T%d:to%d" % (g["file"], g["nw"], g["timeout"]), "200000 lzma_code() calls did not finish the run: calls keep "
+                      "returning without progress and without LZMA_BUF_ERROR (%s)\n%s" % (label, json.dumps(evs[-8:])), dict(kind="run", params=params, file=g["file"]))
+            continue
+        if any(e["e"] == "OVERFLOW" for e in evs):
+            raise MachineryError("driver event buffer overflow: " + label)
         if "failalloc" in params:
             rets_f = [e for e in evs if e["e"] == "Ret"]
             last_f = rets_f[-1]["a"] if rets_f else (init_ev or {}).get("a")
